@@ -465,6 +465,11 @@ func TestVerifC16Tab(t *testing.T) {
 	seed := int64(vC16EnvInt("VERIF_SEED", 1))
 	n := vC16EnvInt("VERIF_N", 300)
 	r := rand.New(rand.NewSource(seed))
+	if dir := os.Getenv("VERIF_CORPUS"); dir != "" {
+		for _, c := range vC16CorpusTab(dir + "/tab_scripts.json") {
+			tr.emit(c)
+		}
+	}
 	caps := []int{-3, 0, 1, 8, 9, 12, 13, 24, 25, 48, 49, 96, 100, 192, 200, 384, 385, 768, 1000, 1536, 3000}
 	for c := 0; c < n; c++ {
 		kind := vC16Kinds[c%len(vC16Kinds)]
@@ -871,6 +876,295 @@ func vC16CacheHistory(r *rand.Rand, size int, nops int) map[string]any {
 	}
 }
 
+
+// ------------------------------------------------------------------ corpus
+// Fixed scripts (minimal forms of every finding / mutation / seeded change the
+// check caught) replayed first on every run.  Keys are given by home slot (table
+// scripts) or by segment (cache scripts), so they adapt to the hash constants.
+
+type vC16TabScript struct {
+	Name     string         `json:"name"`
+	Capacity int            `json:"capacity"`
+	Keys     map[string]int `json:"keys"`
+	Ops      [][]any        `json:"ops"`
+}
+
+func vC16CorpusTab(path string) []map[string]any {
+	b, err := os.ReadFile(path)
+	if err != nil {
+		return nil
+	}
+	var scripts []vC16TabScript
+	if json.Unmarshal(b, &scripts) != nil {
+		return []map[string]any{{"k": "corpus-tab", "go_fail": "corpus file " + path + " does not parse", "nontrivial": false}}
+	}
+	var out []map[string]any
+	for si, sc := range scripts {
+		r := rand.New(rand.NewSource(int64(1000 + si)))
+		names := make([]string, 0, len(sc.Keys))
+		for n := range sc.Keys {
+			names = append(names, n)
+		}
+		sort.Strings(names)
+		key := map[string]uint64{"zero": 0}
+		for _, n := range names {
+			key[n] = vC16KeyAt(r, uint64(sc.Keys[n]))
+		}
+		m := NewUInt64Map[uint64](sc.Capacity)
+		ref := map[uint64]uint64{}
+		n0, g0 := len(m.data), m.growAt
+		var steps []string
+		goFail := ""
+		fail := func(f string, a ...any) {
+			if goFail == "" {
+				goFail = fmt.Sprintf("%s: op %d: ", sc.Name, len(steps)) + fmt.Sprintf(f, a...)
+			}
+		}
+		num := func(x any) int { f, _ := x.(float64); return int(f) }
+		for _, o := range sc.Ops {
+			var op string
+			kind, _ := o[0].(string)
+			var k uint64
+			if len(o) > 1 {
+				if nm, ok := o[1].(string); ok {
+					k = key[nm]
+				}
+			}
+			switch kind {
+			case "put":
+				v := uint64(num(o[2]))
+				m.Put(k, v)
+				ref[k] = v
+				op = fmt.Sprintf("TPut %d %d", k, v)
+			case "pia":
+				v := uint64(num(o[2]))
+				rv, ins := m.PutIfNotExists(k, v)
+				if old, had := ref[k]; had && (ins || rv != old) || !had && (!ins || rv != v) {
+					fail("PutIfNotExists=(%d,%v)", rv, ins)
+				} else if !had {
+					ref[k] = v
+				}
+				op = fmt.Sprintf("TPia %d %d %d %v", k, v, rv, ins)
+			case "del":
+				ok := m.Del(k)
+				if _, had := ref[k]; ok != had {
+					fail("Del=%v, reference presence %v", ok, had)
+				}
+				delete(ref, k)
+				op = fmt.Sprintf("TDel %d %v", k, ok)
+			case "get":
+				got, ok := m.Get(k)
+				if rv, had := ref[k]; ok != had || (ok && got != rv) {
+					fail("Get(%s)=(%d,%v), reference (%d,%v)", o[1], got, ok, rv, had)
+				}
+				op = fmt.Sprintf("TGet %d %s", k, vC16Opt(got, ok))
+			case "has":
+				ok := m.Has(k)
+				if _, had := ref[k]; ok != had {
+					fail("Has(%s)=%v, reference %v", o[1], ok, had)
+				}
+				op = fmt.Sprintf("THas %d %v", k, ok)
+			case "evict":
+				off, nmax := num(o[1]), num(o[2])
+				skip := key[o[3].(string)]
+				d := m.EvictKeysAt(off, nmax, skip)
+				var gone []uint64
+				for rk := range ref {
+					if !m.Has(rk) {
+						gone = append(gone, rk)
+					}
+				}
+				vC16SortedU(gone)
+				others := len(ref)
+				if _, has := ref[skip]; has {
+					others--
+				}
+				want := nmax
+				if others < want {
+					want = others
+				}
+				if d != want || len(gone) != d {
+					fail("EvictKeysAt(%d,%d,skip=%s)=%d, %d keys vanished, expected %d", off, nmax, o[3], d, len(gone), want)
+				}
+				for _, gk := range gone {
+					if gk == skip {
+						fail("EvictKeysAt evicted the protected key")
+					}
+					delete(ref, gk)
+				}
+				op = fmt.Sprintf("TEv %d %d %d %d %s", off, nmax, skip, d, vC16NList(gone))
+			case "all":
+				var all []vC16Pair
+				m.ForEach(func(fk uint64, fv uint64) bool { all = append(all, vC16Pair{fk, fv}); return true })
+				if len(all) != len(ref) {
+					fail("ForEach yielded %d pairs, reference holds %d", len(all), len(ref))
+				}
+				op = "TAll " + vC16PList(all)
+			default:
+				fail("unknown corpus op %q", kind)
+				continue
+			}
+			if s := vC16TabOracle(m, ref); s != "" {
+				fail("%s", s)
+			}
+			steps = append(steps, fmt.Sprintf("Sd (%s) %d %d", op, m.Len(), vC16Digest(m)&0xFFFFFFFF))
+		}
+		var fin []string
+		for i, p := range m.data {
+			if p.Key != 0 {
+				fin = append(fin, fmt.Sprintf("(%d,%d,%d)", i, p.Key, p.Value))
+			}
+		}
+		fins := "[]"
+		if len(fin) > 0 {
+			fins = "[" + strings.Join(fin, ";") + "]%N"
+		}
+		out = append(out, map[string]any{
+			"k":          "corpus-tab",
+			"coq":        fmt.Sprintf("CaseTab %s %d %d [%s] %s %d", vC16Z(int64(sc.Capacity)), n0, g0, strings.Join(steps, ";"), fins, len(m.data)),
+			"go_fail":    goFail,
+			"nontrivial": true,
+			"desc":       map[string]any{"script": sc.Name},
+		})
+	}
+	return out
+}
+
+type vC16CacheScript struct {
+	Name string         `json:"name"`
+	Size int            `json:"size"`
+	Keys map[string]int `json:"keys"` // name -> segment
+	Ops  [][]string     `json:"ops"`
+}
+
+func vC16CorpusCache(path string) []map[string]any {
+	b, err := os.ReadFile(path)
+	if err != nil {
+		return nil
+	}
+	var scripts []vC16CacheScript
+	if json.Unmarshal(b, &scripts) != nil {
+		return []map[string]any{{"k": "corpus-cache", "go_fail": "corpus file " + path + " does not parse", "nontrivial": false}}
+	}
+	var out []map[string]any
+	for _, sc := range scripts {
+		c := New(sc.Size)
+		eff := sc.Size
+		if eff < 1 {
+			eff = 1
+		}
+		m := c.data.data
+		key := map[string]uint64{"zero": 0}
+		names := make([]string, 0, len(sc.Keys))
+		for n := range sc.Keys {
+			names = append(names, n)
+		}
+		sort.Strings(names)
+		for i, n := range names {
+			key[n] = vC16KeyInSeg(m, uint(sc.Keys[n])%uint(len(m.segments)), uint64(1+1000*i))
+		}
+		// pointer names: "p1" and "q1" have equal content and different identity
+		ptr := map[string]*int{}
+		ids := map[*int]uint64{}
+		getPtr := func(n string) *int {
+			if p, ok := ptr[n]; ok {
+				return p
+			}
+			p := new(int)
+			fmt.Sscanf(n[1:], "%d", p)
+			ptr[n] = p
+			ids[p] = uint64(len(ids) + 1)
+			return p
+		}
+		ref := map[uint64]*int{}
+		var steps []string
+		goFail := ""
+		fail := func(f string, a ...any) {
+			if goFail == "" {
+				goFail = fmt.Sprintf("%s: op %d: ", sc.Name, len(steps)) + fmt.Sprintf(f, a...)
+			}
+		}
+		for _, o := range sc.Ops {
+			k := key[o[1]]
+			var op string
+			switch o[0] {
+			case "add":
+				p := getPtr(o[2])
+				before := len(ref)
+				c.Add(k, p)
+				ref[k] = p
+				var gone []uint64
+				for rk := range ref {
+					if _, ok := c.Get(rk); !ok {
+						gone = append(gone, rk)
+					}
+				}
+				vC16SortedU(gone)
+				for _, gk := range gone {
+					if gk == k {
+						fail("Add(%s) evicted the key it was writing", o[1])
+					}
+					delete(ref, gk)
+				}
+				if before <= eff && len(ref) > eff {
+					fail("Add: %d entries after, capacity %d", len(ref), eff)
+				}
+				op = fmt.Sprintf("SSwc %d %d %d %s", k, ids[p], eff, vC16NList(gone))
+			case "get":
+				got, ok := c.Get(k)
+				rv, had := ref[k]
+				if ok != had || (ok && got.(*int) != rv) {
+					fail("Get(%s) presence %v, reference %v, or wrong value", o[1], ok, had)
+				}
+				var id uint64
+				if ok {
+					id = ids[got.(*int)]
+				}
+				op = fmt.Sprintf("SGet %d %s", k, vC16Opt(id, ok))
+			case "cas":
+				old, nv := getPtr(o[2]), getPtr(o[3])
+				ok := c.CompareAndSwap(k, old, nv)
+				cur, had := ref[k]
+				if want := had && cur == old; ok != want {
+					fail("CompareAndSwap(%s,%s,%s)=%v, identical current value present: %v", o[1], o[2], o[3], ok, want)
+				} else if want {
+					ref[k] = nv
+				}
+				op = fmt.Sprintf("SCas %d %d %d %v", k, ids[old], ids[nv], ok)
+			case "cad":
+				old := getPtr(o[2])
+				ok := c.CompareAndDelete(k, old)
+				cur, had := ref[k]
+				if want := had && cur == old; ok != want {
+					fail("CompareAndDelete(%s,%s)=%v, identical current value present: %v", o[1], o[2], ok, want)
+				} else if want {
+					delete(ref, k)
+				}
+				op = fmt.Sprintf("SCad %d %d %v", k, ids[old], ok)
+			case "remove":
+				c.Remove(k)
+				delete(ref, k)
+				op = fmt.Sprintf("SRem %d", k)
+			default:
+				fail("unknown corpus op %q", o[0])
+				continue
+			}
+			if c.Len() != len(ref) {
+				fail("Len()=%d but reference holds %d", c.Len(), len(ref))
+			}
+			steps = append(steps, fmt.Sprintf("Ss (%s) %d", op, c.Len()))
+		}
+		out = append(out, map[string]any{
+			"k":          "corpus-cache",
+			"coq":        fmt.Sprintf("CaseCache %s [%s]", vC16Z(int64(sc.Size)), strings.Join(steps, ";")),
+			"go_fail":    goFail,
+			"nontrivial": true,
+			"desc":       map[string]any{"script": sc.Name},
+		})
+	}
+	return out
+}
+
 // ------------------------------------------------- concurrency (Go side only)
 
 func vC16KeyInSeg(m *SegmentUInt64Map[any], seg uint, start uint64) uint64 {
@@ -904,7 +1198,30 @@ func vC16Reachable(c *Cache) (int, string) {
 // at quiescence Len() == reachable entries and the slot arrays are consistent.
 func vC16Stress(seed int64, size, workers, opsPer int) map[string]any {
 	c := New(size)
-	var aliased atomic.Int64
+	var aliased, dupes, passes atomic.Int64
+	var stop atomic.Bool
+	var rwg sync.WaitGroup
+	// a reader iterating all the time: ForEach concurrent with writers is not a
+	// snapshot, but it never yields a key twice (theorem foreach_no_duplicates)
+	// and never a value stored under another key
+	rwg.Add(1)
+	go func() {
+		defer rwg.Done()
+		for !stop.Load() {
+			seen := map[uint64]bool{}
+			c.ForEach(func(k uint64, v any) bool {
+				if seen[k] {
+					dupes.Add(1)
+				}
+				seen[k] = true
+				if v.(uint64)/1000 != k {
+					aliased.Add(1)
+				}
+				return true
+			})
+			passes.Add(1)
+		}
+	}()
 	var wg sync.WaitGroup
 	for w := 0; w < workers; w++ {
 		wg.Add(1)
@@ -937,13 +1254,19 @@ func vC16Stress(seed int64, size, workers, opsPer int) map[string]any {
 			}
 		}(w)
 	}
-	if !vC16WaitOrHang(&wg) {
-		return map[string]any{"k": "go-stress", "go_fail": fmt.Sprintf("deadlock: %d workers on cache.New(%d) did not finish", workers, size), "nontrivial": true,
+	hung := !vC16WaitOrHang(&wg)
+	stop.Store(true)
+	if hung || !vC16WaitOrHang(&rwg) {
+		return map[string]any{"k": "go-stress", "go_fail": fmt.Sprintf("deadlock: %d workers and a ForEach reader on cache.New(%d) did not finish", workers, size), "nontrivial": true,
 			"desc": map[string]any{"size": size, "workers": workers, "ops_per_worker": opsPer}}
 	}
 	goFail, fkey := "", ""
+	if dupes.Load() > 0 {
+		goFail = fmt.Sprintf("ForEach concurrent with writers yielded a key twice (%d times in %d passes)", dupes.Load(), passes.Load())
+	}
 	n, bad := vC16Reachable(c)
-	if bad != "" {
+	if goFail != "" {
+	} else if bad != "" {
 		goFail = bad
 	} else if aliased.Load() > 0 {
 		goFail = fmt.Sprintf("%d reads returned a value stored under another key", aliased.Load())
@@ -1213,6 +1536,11 @@ func TestVerifC16Seg(t *testing.T) {
 	seed := int64(vC16EnvInt("VERIF_SEED", 1))
 	n := vC16EnvInt("VERIF_N", 100)
 	r := rand.New(rand.NewSource(seed + 77))
+	if dir := os.Getenv("VERIF_CORPUS"); dir != "" {
+		for _, c := range vC16CorpusCache(dir + "/cache_scripts.json") {
+			tr.emit(c)
+		}
+	}
 	powers := []uint8{0, 4, 4, 4, 5, 9}
 	initcaps := []int{0, 0, 128, 1000, 4096}
 	sizes := []int{-1, 0, 1, 2, 3, 5, 8, 20, 100, 1500}
@@ -1241,4 +1569,21 @@ func TestVerifC16Seg(t *testing.T) {
 	}
 	tr.emit(vC16RaceSparse())
 	tr.emit(vC16RaceClear())
+}
+
+// Thorough tier, built with -race: the goroutine stresses only (no forced
+// schedules, which peek at internals on purpose).  A data race reported by the
+// detector fails the test binary and therefore the check.
+func TestVerifC16Race(t *testing.T) {
+	tr := vC16Open(t)
+	defer tr.f.Close()
+	seed := int64(vC16EnvInt("VERIF_SEED", 1))
+	n := vC16EnvInt("VERIF_N", 6)
+	for i := 0; i < n; i++ {
+		size := []int{1, 4, 32, 300}[i%4]
+		tr.emit(vC16Stress(seed+int64(100+i), size, 8, 6000))
+	}
+	for i := 0; i < 2; i++ {
+		tr.emit(vC16CasStress(seed+int64(200+i), 8, 40000))
+	}
 }
